@@ -93,6 +93,7 @@ class Collector:
         self.known_hits = {}
         self.inconclusive = 0
         self.violating = 0
+        self.bulk_nontrivial = 0  # cases counted by parts that run many inputs per generated case
 
     def one(self, case, target=None):
         """Run one case.  With target=None never raises for violations (collect mode);
@@ -121,7 +122,16 @@ class Collector:
             return
         if target is not None:
             return
-        self.evaluations += 1
+        self.evaluations += info.get("count", 1)
+        self.bulk_nontrivial += info.get("nontrivial_count", 0)
+        for v, vcase in info.get("violations", ()):
+            if v.bucket in self.known:
+                self.known_hits[v.bucket] = self.known_hits.get(v.bucket, 0) + 1
+            else:
+                self.violating += 1
+                self._keep(v.bucket, vcase, v)
+        for lab, n in info.get("label_counts", {}).items():
+            self.labels[lab] = self.labels.get(lab, 0) + n
         for lab in info.get("labels", ()):
             self.labels[lab] = self.labels.get(lab, 0) + 1
         if info.get("nontrivial"):
@@ -148,6 +158,7 @@ class Collector:
             part=self.part.name, evaluations=self.evaluations, nontrivial=sorted(self.nontrivial),
             labels=self.labels, samples=self.samples, found=self.found, known_hits=self.known_hits,
             inconclusive=self.inconclusive, violating=self.violating, extra=self.ctx.extra,
+            bulk_nontrivial=self.bulk_nontrivial,
         )
 
 
@@ -369,7 +380,7 @@ def main(argv=None):
                        "--worker", part.name, str(sh), str(ns), str(per), out]
                 procs.append((sh, out, subprocess.Popen(cmd, cwd=VERIF)))
             m = dict(evaluations=0, nontrivial=set(), labels={}, samples=[], found={}, known_hits={},
-                     inconclusive=0, violating=0, extra={}, shards=ns)
+                     inconclusive=0, violating=0, extra={}, shards=ns, bulk=0)
             for sh, out, p in procs:
                 rc = p.wait()
                 if not os.path.exists(out):
@@ -383,6 +394,7 @@ def main(argv=None):
                 m["nontrivial"].update(r["nontrivial"])
                 m["inconclusive"] += r["inconclusive"]
                 m["violating"] += r["violating"]
+                m["bulk"] += r.get("bulk_nontrivial", 0)
                 for k, v in r["labels"].items():
                     m["labels"][k] = m["labels"].get(k, 0) + v
                 for k, v in r["known_hits"].items():
@@ -407,13 +419,13 @@ def main(argv=None):
     # 3. evidence
     wall = time.time() - t0
     evaluations = sum(m["evaluations"] for m in merged.values()) + n_regress
-    distinct = sum(len(m["nontrivial"]) for m in merged.values())
+    distinct = sum(len(m["nontrivial"]) + m["bulk"] for m in merged.values())
     samples = []
     for name, m in merged.items():
         for s in m["samples"][:4]:
             samples.append({"part": name, "case": s})
     per_part = {
-        name: dict(evaluations=m["evaluations"], distinct_nontrivial=len(m["nontrivial"]), shards=m["shards"],
+        name: dict(evaluations=m["evaluations"], distinct_nontrivial=len(m["nontrivial"]) + m["bulk"], shards=m["shards"],
                    labels=dict(sorted(m["labels"].items())), inconclusive=m["inconclusive"],
                    known_finding_hits=m["known_hits"], extra=m["extra"],
                    thin_labels=[k for k in getattr(next(p for p in parts if p.name == name), "expect_labels", ())
@@ -443,7 +455,7 @@ def main(argv=None):
         print(line)
     for name, m in merged.items():
         thin = per_part[name]["thin_labels"]
-        print(f"[{prop}/{name}] cases={m['evaluations']} nontrivial={len(m['nontrivial'])} "
+        print(f"[{prop}/{name}] cases={m['evaluations']} nontrivial={len(m['nontrivial']) + m['bulk']} "
               f"inconclusive={m['inconclusive']} violating={m['violating']} known_hits={sum(m['known_hits'].values())}"
               + (f" THIN={thin}" if thin else ""))
     for part, b, path, detail in violations:
